@@ -103,6 +103,8 @@ type Env struct {
 	MaxSteps int
 	Trace    bool
 	Level2   bool
+	// AllowBubbleErr: the property judges a failed bubble itself (coroutine clean-up, C05)
+	AllowBubbleErr bool
 }
 
 type PanicInfo struct {
